@@ -542,6 +542,48 @@ HEADER_LINES = [
 ]
 
 
+# (statement(s) with SEVERAL uses of the macros, header text): use sites of every kind of macro (triage round 5).  Each of
+# these and of HEADER_LINES is ALSO compiled with the definitions pushed to late header lines (HEADER_PAD in front) and the
+# whole source on ONE line: a token made by `#deepdefine` carries the line number of the HEADER, so every diagnostic that
+# cites it indexes the (shorter) source with a line number beyond its end.
+HEADER_USES = [
+    ('SAY("a"); SAY("b");', '#deepdefine SAY(x) say x'),
+    ('SAY("a"); SAY("b");', '#define SAY(x) say x'),
+    ('GREET; GREET;', '#define GREET say "hi"'),
+    ('GREET(x); GREET(y);', '#deepdefine GREET(n) say "hi"'),
+    ('$x = TWICE(3); $y = TWICE(4);', '#bind EVAL\n#deepdefine TWICE(x) EVAL(x * 2)'),
+    ('$x = SIX; $y = SIX;', '#bind EVAL\n#define SIX EVAL(2 * 3)'),
+    ('$e = Color.RED; $f = Color.BLUE;', '#enum Color RED GREEN BLUE'),
+    ('say "NS"; tellraw @a "NS";', '#bind __namespace__ NS'),
+    ('give @s ITEM(a); give @s ITEM(b);', '#deepdefine ITEM(x) stick[tag=x]'),
+    ('if (ISONE($x)) { say "1"; } if (ISONE($y)) { say "2"; }', '#deepdefine ISONE(v) v == 1'),
+    ('$y := ADD(1, 2); $z := ADD($y, 3);', '#define ADD(a, b) a + b'),
+    ('$y := ADD(1, 2); $z := ADD($y, 3);', '#deepdefine ADD(a, b) (a + b)'),
+    ('execute as @a run SAY("x"); execute at @s run SAY("y");', '#deepdefine SAY(x) say x'),
+    ('SET(a, 1); SET(b, -2);', '#deepdefine SET(n, v) $n = v'),
+    ('TP(1, 2, 3); TP(~, ~1, ~);', '#deepdefine TP(x, y, z) tp @s x y z'),
+    ('say "x" NOTHING; NOTHING say "y";', '#define NOTHING'),
+    ('$r = Math.random(LO, HI); $s = Math.random(min=LO, max=HI);', '#define LO 1\n#define HI 6'),
+    ('Text.tellraw(@a, MSG(hi)); Text.tellraw(@s, MSG(yo));', '#deepdefine MSG(t) "&<red>t"'),
+    ('$a = N; $b = NOT(N); $c = NOT(0);', '#bind NOT\n#define N 5'),
+    ('switch ($x) { case A: say "a"; case B: say "b"; }', '#define A 1\n#define B 2'),
+    ('PAIR(1, 2); PAIR((3), (4, 5));', '#deepdefine PAIR(a, b) say "a b"'),
+]
+HEADER_PAD = ("// generated header\n\n// the definitions below sit on late lines\n#define PAD_A 0\n\n"
+              "// more padding\n#define PAD_B PAD_A\n//\n")
+_MACRO_NAME = re.compile(r"#\s*(?:deep)?define\s+([A-Za-z_][A-Za-z0-9_.]*)|#\s*bind\s+(\w+)(?:[ \t]+(\w+))?|#\s*enum\s+(\w+)")
+
+
+def macro_names(header: str | None) -> list[str]:
+    """names a header defines (the tokens whose expansion is nothing / needs arguments when they END a source)"""
+    out = []
+    for m in _MACRO_NAME.finditer(header or ""):
+        n = m.group(1) or m.group(3) or m.group(2) or m.group(4)
+        if n and n not in out:
+            out.append(n)
+    return out
+
+
 def statements() -> list[dict]:
     """One program per statement of STATEMENTS / HEADER_LINES (strengthening round 1): every operand position of every
     statement kind (negative literals, obj:selector targets, := expressions, for-headers, execute-run wrappers, switch
@@ -563,6 +605,21 @@ def statements() -> list[dict]:
         src = "function f() { " + stmt + " }"
         out.append(dict(name=f"stmt.header.{n}", src=src, header=hdr, pack_format=None, origin="statements",
                         kind="header", span=(15, 15 + len(stmt)), header_span=(0, len(hdr))))
+    # triage round 5: use sites of macros; definitions on late header lines over a one-line source; load-level sources
+    for n, (stmt, hdr) in enumerate(HEADER_LINES + HEADER_USES):
+        uses = n >= len(HEADER_LINES)
+        top_ok = not stmt.startswith("function ")
+        variants = []
+        if uses:
+            variants.append(("fn", "function f() { " + stmt + " }", 15, hdr, 0))
+        variants.append(("fn-late", "function f() { " + stmt + " }", 15, HEADER_PAD + hdr, len(HEADER_PAD)))
+        if uses and top_ok:
+            variants.append(("top", stmt, 0, hdr, 0))
+            variants.append(("top-late", stmt, 0, HEADER_PAD + hdr, len(HEADER_PAD)))
+        for tag, src, off, header, hoff in variants:
+            out.append(dict(name=f"stmt.header5.{n}.{tag}", src=src, header=header, pack_format=None, origin="statements",
+                            kind="header-uses" if uses else "header-late", span=(off, off + len(stmt)),
+                            header_span=(hoff, len(header)), header_lines=True))
     return out
 
 
